@@ -482,6 +482,11 @@ func readBack1(src io.Reader, p readPattern, limit int) (res readResult) {
 		n, err := r.Read(buf)
 		res.calls++
 		out = append(out, buf[:n]...)
+		// the caller owns its buffer again: scribble over it so that a Reader which kept a
+		// reference to it (instead of a copy) decodes garbage
+		for j := 0; j < n; j += 1 + n/64 {
+			buf[j] ^= 0x5A
+		}
 		if err != nil {
 			res.out, res.err, res.clean = out, err, err == io.EOF
 			return
